@@ -849,13 +849,27 @@ def Limits.real : Limits := { maxAdvance := maxCursorAdvance, maxCandidates := 2
 /-- One request.  `matched` = keys of all live matching documents (segment order);
 `skipped` = number of after-cursor documents a pruning executor never evaluated (0 for
 `execution: "bm25"` and for every non-default sort).  Mirrors: advance cap (checked when the
-cursor is decoded), cursor test, `saw_cursor`, `top_k = min(limit, MAX_CANDIDATE_SIZE) + 1`
-(no `candidate_size` in the request), sort, `hits.len() > limit ⇒ next_cursor` with
-`returned = cursor_returned + limit` (saturating to `u32`), `truncate(limit)`,
-`total_hits_estimate = total_matches + cursor_returned`.
+cursor is decoded), cursor test, `saw_cursor`, `page_size = min(limit, MAX_CANDIDATE_SIZE)`,
+`top_k = page_size + 1` (no `candidate_size`/rescore window in the request), sort,
+`hits.len() > page_size ⇒ next_cursor` with `returned = cursor_returned + page_size`
+(saturating to `u32`), `truncate(page_size)`, `total_hits_estimate = total_matches +
+cursor_returned` (reader.rs since 7ad6649: a limit above the fetch cap is served in pages of
+`MAX_CANDIDATE_SIZE` hits with a cursor for the rest).
 (For `limit > MAX_CANDIDATE_SIZE` the default-sort path ranks `top_k` hits *per segment*; the
 model follows the global heap of the other path, which is the same thing for one segment.) -/
 def page (cfg : Limits) (matched : List κ) (cur : Option (Cur κ)) (limit : Nat) (skipped : Nat := 0) :
+    Except PageErr (Resp κ) :=
+  if curReturned cur > cfg.maxAdvance then .error .advance
+  else if !sawCursor lt matched cur then .error .stale
+  else
+    pageOf ((sortKeys lt (afterCursor lt matched cur)).take (min limit cfg.maxCandidates + 1))
+      (min limit cfg.maxCandidates)
+      (curReturned cur) (((afterCursor lt matched cur).length - skipped) + curReturned cur)
+
+/-- the page cut before 7ad6649: the look-ahead test, `returned` and the truncation used the
+requested `limit` although only `min(limit, MAX_CANDIDATE_SIZE) + 1` hits were fetched (kept for
+the legacy witness `legacy_large_limit_truncates`) -/
+def pageLegacy (cfg : Limits) (matched : List κ) (cur : Option (Cur κ)) (limit : Nat) (skipped : Nat := 0) :
     Except PageErr (Resp κ) :=
   if curReturned cur > cfg.maxAdvance then .error .advance
   else if !sawCursor lt matched cur then .error .stale
